@@ -1834,3 +1834,111 @@ def accepts_empty_input(f, b, pidx):
         memo[bb] = res
         return res
     return go(0, frozenset())
+
+
+
+# ---------------------------------------------------------------------------------------------
+# R-SIB: capture mode vs encode mode (C04: re-encoding a decoded value does not panic)
+
+def _top_level_members(ty):
+    """members of a tuple type `(A, B, C)` (top level only), or [ty] itself."""
+    ty = ty.strip()
+    if not (ty.startswith("(") and ty.endswith(")")):
+        return [ty]
+    out, depth, cur = [], 0, ""
+    for ch in ty[1:-1]:
+        if ch in "(<[{":
+            depth += 1
+        elif ch in ")>]}":
+            depth -= 1
+        if ch == "," and depth == 0:
+            out.append(cur.strip())
+            cur = ""
+        else:
+            cur += ch
+    if cur.strip():
+        out.append(cur.strip())
+    return out
+
+
+def check_encode_modes(ctx, f, rule="R-SIB"):
+    """bcder's `Values for Captured` panics when a value captured in BER mode is written by an encoder running in DER
+    mode ("Trying to encode a captured value with incompatible mode").  The encoders of this crate run in DER mode
+    (`to_captured()` = `Captured::from_values(Mode::Der, ..)`), and a decoder in relaxed mode captures in BER mode.  So a
+    `Captured` field that some decoding path reachable in BER mode fills must not be handed to a bcder encoder as a
+    `Captured` (it has to be written as the octets it holds).  One obligation per such hand-over site."""
+    ber, parent, roots = ber_reachable(f)
+    n_sites = 0
+    ber_fill = {}
+
+    def filled_in_ber(adt, fld):
+        key = (adt, fld)
+        if key in ber_fill:
+            return ber_fill[key]
+        who = []
+        for b, bi, si, st in aggregates_of(f, adt):
+            if is_derived_body(b) or b.name not in ber:
+                continue
+            t = strip_deep(sym_of(b).rvalue(st["rv"]))
+            d = dict(t[3]) if t[0] == "agg" else {}
+            v = d.get(fld)
+            if v is None:
+                continue
+            # filled from the decoder's input (capture / capture_one / capture_all …), not from a DER re-encoding
+            def has_capture(t, depth=0):
+                for x in walk(strip_deep(t)):
+                    if x[0] == "call" and ((x[3] or {}).get("name") or "").startswith("capture") and \
+                            (x[3] or {}).get("krate") == "bcder":
+                        return True
+                    if x[0] in ("closure", "fnref") and depth < 3:
+                        cb = f.body(x[1])
+                        if cb is not None and any((cc.name or "").startswith("capture") and cc.krate == "bcder" for cc in cb.calls()):
+                            return True
+                return False
+            if has_capture(v):
+                who.append(b.name)
+        ber_fill[key] = sorted(set(who))
+        return ber_fill[key]
+
+    for name, b in sorted(f.bodies.items()):
+        if is_derived_body(b):
+            continue
+        for c in b.calls():
+            if b.is_cleanup(c.bb) or not c.is_static or not (c.res or "").startswith("bcder::") or not c.ga:
+                continue
+            if not ((c.res or "").startswith("bcder::encode::") or c.name in ("from_values", "to_captured", "write_encoded", "encoded_len")):
+                continue
+            # which generic argument is the values type, and which of its top-level members is a Captured
+            hits = []
+            for g in c.ga:
+                for i, m in enumerate(_top_level_members(g)):
+                    if m in ("&bcder::Captured", "bcder::Captured", "&&bcder::Captured"):
+                        hits.append((g, i, len(_top_level_members(g))))
+            if not hits:
+                continue
+            ats = arg_terms(c)
+            for g, i, nmem in hits:
+                # the argument carrying the values: the last one whose aggregate has nmem members, or the value itself
+                term = None
+                for a in reversed(ats):
+                    a = strip_deep(a)
+                    if nmem > 1 and a[0] == "agg" and a[1] == "tuple" and len(a[3]) == nmem:
+                        term = strip_deep(a[3][i][1])
+                        break
+                    if nmem == 1 and a[0] in ("field", "param", "var", "mvar", "call"):
+                        term = a
+                        break
+                if term is None:
+                    continue
+                while term[0] == "mvar":
+                    term = strip_deep(term[3])
+                if term[0] != "field" or len(term) < 4 or term[3] not in f.adts:
+                    continue                    # a captured value built here (builders): DER by construction
+                adt, fld = term[3], str(term[2])
+                n_sites += 1
+                who = filled_in_ber(adt, fld)
+                ctx.ob(rule, "%s:encodes-captured[%s.%s]" % (short(root_fn_name(f, name)), short(adt), fld), not who,
+                       "%s hands %s.%s to bcder as a captured value; no decoding path that can run in BER mode fills that field "
+                       "(writing a BER capture in DER mode panics in bcder)" % (short(root_fn_name(f, name)), short(adt), fld),
+                       where=c.where(), detail=None if not who else {"filled_in_BER_mode_by": who[:6]})
+    return n_sites
